@@ -14,6 +14,7 @@ Failed(r) ==
             ELSE Clause("bytes_exact", r.out.bytes = T!EncC(r.c, r.v, r.boxed = 1))
                  \cup (IF Has(r.back, "err") THEN {"parse_raised"}
                        ELSE Clause("parse_back_equal", r.back.v = r.v) \cup Clause("consumed_all", r.back.used = Len(r.out.bytes)))
+      [] r.op = "tl_hostile" -> {}      \* malformed input between the round trips: executed for its effect on later calls only
       [] r.op = "schema" ->
             LET s == T!ByName[r.name] IN
             Clause("MACHINERY_schema_reader_disagrees_with_declaration", T!RenderOk(s))
